@@ -1,6 +1,7 @@
 (** C14 - versions advance one at a time and a stale commit is refused.
     Property theorems only; each closed by [exact] of a lemma from Proofs/. *)
 From Rocfl Require Import Base.Bytes Model.VersionNum Model.Known Proofs.VersionNumFacts.
+From Rocfl Require Import Model.MultiClient Model.KnownC14 Proofs.MultiClientFacts.
 Open Scope N_scope.
 
 Theorem C14_next_is_spec : forall dbg v,
@@ -40,3 +41,149 @@ Example C14_nonvacuous :
   vwf (mkV 98 3) = true /\ c14_overflow (mkV 98 3) = false /\ vfits (mkV 98 3) = true /\
   vnext true (mkV 98 3) = Ok (mkV 99 3) /\ vnext true (mkV 99 3) = Err.
 Proof. repeat split; vm_compute; reflexivity. Qed.
+
+(** * Second half: clients that share a storage root but use different staging roots
+    (Model/MultiClient.v).  An interleaving is any list of (client, operation); states are
+    quantified through the invariant [mc_inv] of the states reachable outside the known
+    classes ([C14_reachable_invariant]). *)
+
+Theorem C14_reachable_invariant : forall dbg es,
+  run_clean dbg mc_init es = true -> mc_inv (run dbg mc_init es).
+Proof. exact reachable_inv. Qed.
+Print Assumptions C14_reachable_invariant.
+
+Theorem C14_invariant_preserved : forall dbg es st,
+  mc_inv st -> run_clean dbg st es = true -> mc_inv (run dbg st es).
+Proof. exact run_inv. Qed.
+Print Assumptions C14_invariant_preserved.
+
+(** every reachable object: head number = number of versions (none skipped, none repeated),
+    within what its padding width can express *)
+Theorem C14_reachable_heads : forall dbg es id o,
+  run_clean dbg mc_init es = true -> mget (run dbg mc_init es) id = Some o ->
+  vn_number (o_head o) = N.of_nat (List.length (o_versions o)) /\ 1 <= vn_number (o_head o) /\
+  vfits (o_head o) = true.
+Proof. exact reachable_heads. Qed.
+Print Assumptions C14_reachable_heads.
+
+(** a successful commit of a new version changes the main repository at that id only and
+    appends exactly one version: number = old head + 1, same width, state = the client's staged
+    head state, all earlier versions unchanged; only that client's staged copy is consumed *)
+Theorem C14_commit_appends_exactly_next : forall dbg st c id s st',
+  mc_inv st -> sget st c id = Some s -> vn_number (s_head s) <> 1 ->
+  c14_recreated_lineage st c id = false ->
+  step dbg st c (Commit id) = (st', Ok tt) ->
+  exists o, mget st id = Some o /\
+    mget st' id = Some (mkObj (o_lineage o) (mkV (vn_number (o_head o) + 1) (vn_width (o_head o)))
+                              (o_versions o ++ [s_state s])) /\
+    (forall id', id' <> id -> mget st' id' = mget st id') /\
+    sget st' c id = None /\
+    (forall c' id', (c', id') <> (c, id) -> sget st' c' id' = sget st c' id') /\
+    mc_next st' = mc_next st.
+Proof. exact commit_appends_exactly_next. Qed.
+Print Assumptions C14_commit_appends_exactly_next.
+
+(** outside the classifier every successful write_new_version was cloned from exactly the
+    object now in the main repository, so the new version's state is the previous head's
+    state with the staged changes applied *)
+Theorem C14_lineage_known_exact : forall dbg st c id s o st',
+  mc_inv st -> sget st c id = Some s -> vn_number (s_head s) <> 1 -> mget st id = Some o ->
+  c14_recreated_lineage st c id = false -> step dbg st c (Commit id) = (st', Ok tt) ->
+  s_base s = Some (o_lineage o) /\ s_versions s = o_versions o /\
+  s_state s = apply_edits (s_edits s) (last_state (o_versions o)).
+Proof. exact lineage_known_exact. Qed.
+Print Assumptions C14_lineage_known_exact.
+
+(** along any run without the known classes the version list of an object lineage only grows
+    at its end; an object found under another lineage was created after the run began *)
+Theorem C14_versions_append_only : forall dbg es st id o o1,
+  mc_inv st -> run_clean dbg st es = true ->
+  mget st id = Some o -> mget (run dbg st es) id = Some o1 ->
+  (o_lineage o1 = o_lineage o -> extends_obj o o1) /\
+  (o_lineage o1 <> o_lineage o -> mc_next st <= o_lineage o1).
+Proof. exact versions_append_only. Qed.
+Print Assumptions C14_versions_append_only.
+
+(** the main head is not the staged head - 1 (someone else committed first, or the object is
+    gone): Err, and the whole system state - repository and staged changes - is unchanged *)
+Theorem C14_stale_commit_refused_unchanged : forall dbg st c id s,
+  sget st c id = Some s -> vwf (s_head s) = true -> vn_number (s_head s) <> 1 ->
+  (forall o, mget st id = Some o -> vn_number (o_head o) + 1 <> vn_number (s_head s)) ->
+  step dbg st c (Commit id) = (st, Err).
+Proof. exact stale_commit_refused_unchanged. Qed.
+Print Assumptions C14_stale_commit_refused_unchanged.
+
+(** every refused or aborted operation leaves the repository and all staging roots unchanged *)
+Theorem C14_refused_unchanged : forall dbg st c o,
+  snd (step dbg st c o) <> Ok tt -> fst (step dbg st c o) = st.
+Proof. exact step_refused_unchanged. Qed.
+Print Assumptions C14_refused_unchanged.
+
+Theorem C14_new_object_refused_if_exists : forall dbg st c id o,
+  mget st id = Some o ->
+  (forall w, step dbg st c (New id w) = (st, Err)) /\
+  (forall s, sget st c id = Some s -> vn_number (s_head s) = 1 -> step dbg st c (Commit id) = (st, Err)).
+Proof. exact new_object_refused_if_exists. Qed.
+Print Assumptions C14_new_object_refused_if_exists.
+
+(** after a successful commit of client [a], the commit of any other client [c] whose staged
+    copy existed before fails - whatever happens in between - unless [c] resets, re-stages
+    after a commit of its own, or the object is purged *)
+Theorem C14_no_silent_merge : forall dbg st a c id sc st1 es,
+  mc_inv st -> a <> c -> sget st c id = Some sc ->
+  step_clean st a (Commit id) = true -> step dbg st a (Commit id) = (st1, Ok tt) ->
+  run_clean dbg st1 es = true -> forallb (ev_keeps c id) es = true ->
+  c14_recreated_lineage (run dbg st1 es) c id = false ->
+  step dbg (run dbg st1 es) c (Commit id) = (run dbg st1 es, Err).
+Proof. exact no_silent_merge. Qed.
+Print Assumptions C14_no_silent_merge.
+
+(** at the largest number the padding width can express a further version cannot even be staged *)
+Theorem C14_stage_refused_at_width_max : forall dbg st c id o e,
+  mc_inv st -> sget st c id = None -> mget st id = Some o -> c14_overflow (o_head o) = false ->
+  max_for_width (vn_width (o_head o)) < vn_number (o_head o) + 1 ->
+  step dbg st c (Stage id e) = (st, Err).
+Proof. exact stage_refused_at_width_max. Qed.
+Print Assumptions C14_stage_refused_at_width_max.
+
+(** The excluded class is a genuine defect of the modelled code (known finding recreated-lineage):
+    a run, clean up to its last step, whose final commit is in the class, succeeds and replaces
+    the committed versions of the object in the main repository. *)
+Theorem C14_known_recreated_lineage_refuted :
+  exists es c id,
+    run_clean true mc_init es = true /\
+    c14_recreated_lineage (run true mc_init es) c id = true /\
+    snd (step true (run true mc_init es) c (Commit id)) = Ok tt /\
+    exists o o1, mget (run true mc_init es) id = Some o /\
+      mget (fst (step true (run true mc_init es) c (Commit id))) id = Some o1 /\
+      o_lineage o1 = o_lineage o /\ ~ extends (o_versions o) (o_versions o1).
+Proof. exact recreated_lineage_refuted. Qed.
+Print Assumptions C14_known_recreated_lineage_refuted.
+
+(** Non-vacuity. *)
+Example C14_race_exactly_one_wins :
+  let st := run true mc_init race_prefix in
+  run_clean true mc_init (race_prefix ++ [(0, Commit wit_id); (1, Commit wit_id)]) = true /\
+  run_clean true mc_init (race_prefix ++ [(1, Commit wit_id); (0, Commit wit_id)]) = true /\
+  run_results true st [(0, Commit wit_id); (1, Commit wit_id)] = [Ok tt; Err] /\
+  run_results true st [(1, Commit wit_id); (0, Commit wit_id)] = [Ok tt; Err] /\
+  (exists o, mget (run true st [(0, Commit wit_id); (1, Commit wit_id)]) wit_id = Some o /\
+             vn_number (o_head o) = 2 /\ List.length (o_versions o) = 2%nat) /\
+  (exists s, sget (run true st [(0, Commit wit_id); (1, Commit wit_id)]) 1 wit_id = Some s /\
+             s_state s = [(b "y.txt", 3); (b "a.txt", 1)]).
+Proof. exact race_exactly_one_wins. Qed.
+
+Example C14_width2_refuses_v10 :
+  let st := run true mc_init width2_run in
+  run_clean true mc_init width2_run = true /\
+  (exists o, mget st wit_id = Some o /\ o_head o = mkV 9 2 /\ List.length (o_versions o) = 9%nat) /\
+  step true st 1 (Stage wit_id (b "g.txt", Some 77)) = (st, Err) /\
+  step false st 1 (Stage wit_id (b "g.txt", Some 77)) = (st, Err).
+Proof. exact width2_refuses_v10. Qed.
+
+Example C14_commit_hypotheses_nonvacuous :
+  let st := run true mc_init race_prefix in
+  mc_inv st /\ (exists s, sget st 1 wit_id = Some s /\ vn_number (s_head s) <> 1) /\
+  c14_recreated_lineage st 1 wit_id = false /\
+  snd (step true st 1 (Commit wit_id)) = Ok tt.
+Proof. exact commit_nonvacuous. Qed.
